@@ -523,7 +523,30 @@ func GenProject(t *rapid.T, pf Profile) *Project {
 				src, best = c, n
 			}
 		}
-		if mc := mirrorController(p, src, pf); mc != nil {
+		mc := mirrorController(p, src, pf)
+		if mc != nil {
+			// the mirrored routes obey the same rule as all others: no same-verb overlap with a route that exists already
+			// (a prefix-less controller may own /{name}/orders, which also matches /mirror2/orders)
+			var kept []*Method
+			for _, m := range mc.Methods {
+				full := NormalisePath(mc.Prefix(), m.Route)
+				clash := false
+				for _, k := range taken {
+					if (k.verb == m.Verb && Overlap(k.path, full)) || sameTemplateOtherNames(k.path, full) {
+						clash = true
+					}
+				}
+				if !clash {
+					taken = append(taken, opKey{m.Verb, full})
+					kept = append(kept, m)
+				}
+			}
+			mc.Methods = kept
+			if len(kept) == 0 {
+				mc = nil
+			}
+		}
+		if mc != nil {
 			p.Controllers = append(p.Controllers, mc)
 			pkgUsed[mc.Pkg] = true
 		}
